@@ -16,6 +16,7 @@ import (
 	"strings"
 	"sync"
 	"sync/atomic"
+	"time"
 )
 
 // Res is one resource of a site model.
@@ -39,6 +40,7 @@ type Fetch struct {
 	Host    string `json:"host"`
 	Attempt int    `json:"attempt"`
 	Status  int    `json:"status"` // 0 = transport error
+	AtMs    int64  `json:"at_ms"`  // (virtual) time of the request, ms since the network was created
 }
 
 // Net is the in-memory network: an http.RoundTripper over a Site with a global, totally ordered fetch log.
@@ -48,11 +50,12 @@ type Net struct {
 	attempts map[string]int
 	log      []Fetch
 	seq      *atomic.Int64
+	t0       time.Time
 	Gate     func(req *http.Request) // optional: called before answering (to stall / observe)
 }
 
 func NewNet(site Site, seq *atomic.Int64) *Net {
-	return &Net{site: site, attempts: map[string]int{}, seq: seq}
+	return &Net{site: site, attempts: map[string]int{}, seq: seq, t0: time.Now()}
 }
 
 // Log returns a copy of the fetch log.
@@ -65,6 +68,7 @@ func (n *Net) Log() []Fetch {
 var errConn = errors.New("verifsim: simulated connection failure")
 
 func (n *Net) RoundTrip(req *http.Request) (*http.Response, error) {
+	at := time.Since(n.t0).Milliseconds() // arrival time, before any stall the harness injects
 	if n.Gate != nil {
 		n.Gate(req)
 	}
@@ -104,7 +108,7 @@ func (n *Net) RoundTrip(req *http.Request) (*http.Response, error) {
 		body = []byte("not found")
 		hdr.Set("Content-Type", "text/plain")
 	}
-	f := Fetch{Seq: n.seq.Add(1), URL: u, Host: req.URL.Host, Attempt: att, Status: status}
+	f := Fetch{Seq: n.seq.Add(1), URL: u, Host: req.URL.Host, Attempt: att, Status: status, AtMs: at}
 	if fail && status == 0 {
 		f.Status = 0
 	}
